@@ -257,6 +257,9 @@ def expected_program(instrument):
     'the MIDI instrument's program, otherwise 1': a MIDI instrument can be identified by its GM name
     (0-based GM1 program) or by its instrument number (1 when never set); where the two disagree
     either is accepted -- the statement does not say which one "the program" is."""
+    if instrument is not None and instrument[0] == "bank":
+        # ["bank", name, instrument_nr, names]: the instrument's own table decides (recipes keep the number equal to the index)
+        return {instrument[3].index(instrument[1]) if instrument[1] in instrument[3] else 1, instrument[2]}
     if instrument is None or instrument[0] != "midi":
         return {1}
     name, nr = instrument[1], instrument[2]
